@@ -182,8 +182,8 @@ CONNECTION = {
                  ("ka,xupgrade", "keep-alive, xupgrade")],
 }
 KEY = {
-    "quick": [("valid", VALID_KEY), ("absent", None), ("short", "abc")],
-    "thorough": [("valid", VALID_KEY), ("valid2", VALID_KEY2), ("absent", None), ("empty", ""),
+    "quick": [("valid", VALID_KEY), ("absent", None), ("empty", "")],
+    "thorough": [("valid", VALID_KEY), ("valid2", VALID_KEY2), ("absent", None), ("empty", ""), ("blank", " \t "),
                  ("short", "abc")],
 }
 VERSION = {
@@ -238,6 +238,7 @@ def make_origin(template, host):
         "prefix-host": "http://" + hn.lower() + ".evil.org" + pp if not hn.startswith("[")
         else "http://[::1:1]" + pp,
         "other-port": "http://" + hn.lower() + ":9999",
+        "no-port": "http://" + hn.lower(),        # differs from the Host header when that names a non-default port
         "userinfo-same": "http://user@" + hh.lower(),
         "userinfo-trick": "http://" + hh.lower() + "@evil.org",
         "null": "null",
@@ -259,12 +260,12 @@ def host_origin_pairs(tier):
     if tier == "quick":
         pairs = [("example.com", t) for t in ORIGIN_T["quick"]]
         pairs += [(None, "none"), ("EXAMPLE.com", "same"),
-                  ("example.com:8080", "same"), ("example.com:8080", "other-port")]
+                  ("example.com:8080", "same"), ("example.com:8080", "other-port"), ("example.com:8080", "no-port")]
         return pairs
     pairs = [("example.com", t) for t in ORIGIN_T["thorough"]]
-    pairs += [("example.com:8080", t) for t in ("same", "other-port", "suffix-host")]
+    pairs += [("example.com:8080", t) for t in ("same", "other-port", "suffix-host", "no-port")]
     pairs += [("EXAMPLE.com", t) for t in ("same", "other-host")]
-    pairs += [("[::1]:8080", t) for t in ("same", "other-port")]
+    pairs += [("[::1]:8080", t) for t in ("same", "other-port", "no-port")]
     pairs += [(None, "none"), ("", "none")]
     return pairs
 
@@ -340,7 +341,7 @@ def server_expect(hdrs, policy, enabled, advertised):
     co = field(hdrs, "Connection")
     comp["connection"] = "OK" if co is not None and "upgrade" in tokens(co) else "FAIL"
     key = field(hdrs, "Sec-WebSocket-Key")
-    if not key:
+    if not key or not key.strip(" \t"):
         comp["key"] = "FAIL"
     elif KEY_RE.match(key):
         comp["key"] = "OK"
